@@ -4,6 +4,7 @@ import (
 	"encoding/hex"
 	"fmt"
 	"math/big"
+	"sort"
 	"strconv"
 	"time"
 
@@ -54,8 +55,13 @@ func attrsOf(res *txRes, typ string) []map[string]string { return node.EventAttr
 
 func expectAttrs(got map[string]string, want map[string]string, inv string, owners []string) []mismatch {
 	var out []mismatch
-	for k, v := range want {
-		if got[k] != v {
+	keys := make([]string, 0, len(want))
+	for k := range want {
+		keys = append(keys, k)
+	}
+	sort.Strings(keys) // several attributes may be wrong at once: always report the same one first
+	for _, k := range keys {
+		if v := want[k]; got[k] != v {
 			out = append(out, mm(inv, "event-attr-"+k, owners, "event attribute %s = %q, want %q", k, got[k], v))
 		}
 	}
